@@ -293,3 +293,53 @@ theorem C13_named_line (und : Bool) (ofStr : Bytes → Res L) (st : LoadSt L) (a
       exact ⟨_, rfl, rfl, hnames, by rw [hsize', hg1size], by rw [hlen', hsize'], rfl⟩
 
 end BGV
+
+namespace BGV
+open G FIO
+variable {L : Type} [Inhabited L]
+
+/-- a parsed line of a vertex-labelled file: its text, its three tokens and the label value -/
+structure NLine (L : Type) where
+  text : Bytes
+  a : Bytes
+  b : Bytes
+  c : Bytes
+  l : L
+
+def NLine.ok (ofStr : Bytes → Res L) (x : NLine L) : Prop :=
+  (x.text.head? == some 35) = false ∧ findEdgeFromString x.text = .ok (x.a, x.b, x.c) ∧ ofStr x.c = .ok x.l
+
+/-- the names seen after a list of lines, starting from `acc` -/
+def namesAfter (acc : List Bytes) (ls : List (NLine L)) : List Bytes :=
+  ls.foldl (fun acc x => num2 acc x.a x.b) acc
+
+/-- the edges (between name indices) the lines create, starting from `acc` -/
+def edgesAfter (acc : List Bytes) : List (NLine L) → List (Nat × Nat × L)
+  | [] => []
+  | x :: ls => ((numStep acc x.a).idxOf x.a, (num2 acc x.a x.b).idxOf x.b, x.l) :: edgesAfter (num2 acc x.a x.b) ls
+
+theorem num2_nodup (acc : List Bytes) (a b : Bytes) (h : acc.Nodup) : (num2 acc a b).Nodup :=
+  numStep_nodup _ b (numStep_nodup acc a h)
+
+/-- **C13 (vertex-labelled files, whole file).** For any sequence of well-formed lines the loader
+ends with: the name table = the distinct names in order of first appearance; one vertex per name;
+and the graph built by the edge-list constructor steps over the name indices. -/
+theorem C13_named_lines (und : Bool) (ofStr : Bytes → Res L) (ls : List (NLine L)) (hls : ∀ x ∈ ls, x.ok ofStr)
+    (st : LoadSt L) (acc : List Bytes) (hacc : acc.Nodup) (ht : st.table = tableOf acc) (hnm : st.names = acc)
+    (hsz : st.g.size = acc.length) (hlen : st.g.adj.length = st.g.size) :
+    ∃ st', (ls.map (·.text)).foldl (fun (r : Res (LoadSt L)) line => r.bind (fun st => loadLine und true ofStr st line)) (.ok st)
+        = .ok st' ∧
+      st'.names = namesAfter acc ls ∧ st'.g.size = (namesAfter acc ls).length ∧
+      (edgesAfter acc ls).foldl (ctorStep (if und then uAddF else addF)) (.ok st.g) = .ok st'.g := by
+  induction ls generalizing st acc with
+  | nil => exact ⟨st, rfl, hnm, hsz, rfl⟩
+  | cons x ls ih =>
+    obtain ⟨h1, h2, h3⟩ := hls x (by simp)
+    obtain ⟨st1, e1, e2, e3, e4, e5, e6⟩ := C13_named_line und ofStr st acc x.text x.a x.b x.c x.l hacc ht hnm hsz hlen h1 h2 h3
+    obtain ⟨st', f1, f2, f3, f4⟩ := ih (fun y hy => hls y (by simp [hy])) st1 (num2 acc x.a x.b) (num2_nodup acc x.a x.b hacc) e2 e3 e4 e5
+    refine ⟨st', ?_, f2, f3, ?_⟩
+    · simp only [List.map_cons, List.foldl_cons, Res.bind, e1]; exact f1
+    · simp only [edgesAfter, List.foldl_cons]
+      rw [e6]; exact f4
+
+end BGV
